@@ -20,6 +20,11 @@ Definition tcode (a : tchar) : Z := fst a.
 Definition taint (o : origin) (s : str) : tstr := map (fun c => (c, o)) s.
 Definition erase (t : tstr) : str := map tcode t.
 Definition failure := (origin * pass)%type.
+(* _shield / _unshield on tainted text: code points change, origins stay *)
+Definition tsh (legacy : bool) (t : tstr) : tstr :=
+  if legacy then t else map (fun a => (sh_char (fst a), snd a)) t.
+Definition tunsh (legacy : bool) (t : tstr) : tstr :=
+  if legacy then t else map (fun a => (ush_char (fst a), snd a)) t.
 
 Definition origin_code (o : origin) : Z :=
   match o with
@@ -68,19 +73,19 @@ Definition replace_all_t (s : tstr) (old : str) (new : tstr) : tstr * list failu
   let ts := scan (m_lit tcode old) O s in
   (subst (fun _ _ => new) ts, toks_log PLoopKeys ts).
 
-Definition loop_part_t (body : tstr) (lc : list (str * str)) : tstr * list failure :=
+Definition loop_part_t (legacy : bool) (body : tstr) (lc : list (str * str)) : tstr * list failure :=
   fold_left (fun (acc : tstr * list failure) kv =>
                let '(part, lg) := acc in
-               let '(part', lg') := replace_all_t part (key_pattern (fst kv)) (taint FromLoopItem (snd kv)) in
+               let '(part', lg') := replace_all_t part (key_pattern (fst kv)) (taint FromLoopItem (sh legacy (snd kv))) in
                (part', lg ++ lg'))
             lc (body, []).
 
-Fixpoint loop_items_t (body : tstr) (n i : nat) (items : list item) : tstr * list failure :=
+Fixpoint loop_items_t (legacy : bool) (body : tstr) (n i : nat) (items : list item) : tstr * list failure :=
   match items with
   | [] => ([], [])
   | it :: rest =>
-      let '(p1, l1) := loop_part_t body (loop_context i n it) in
-      let '(p2, l2) := loop_items_t body n (S i) rest in
+      let '(p1, l1) := loop_part_t legacy body (loop_context i n it) in
+      let '(p2, l2) := loop_items_t legacy body n (S i) rest in
       (p1 ++ p2, l1 ++ l2)
   end.
 
@@ -93,12 +98,12 @@ Definition pass_if_t (c : ctx) (s : tstr) : (tstr + error) * list failure :=
                     end))
        (scan (m_if tcode) O s).
 
-Definition pass_each_t (c : ctx) (s : tstr) : (tstr + error) * list failure :=
+Definition pass_each_t (legacy : bool) (c : ctx) (s : tstr) : (tstr + error) * list failure :=
   tsub PEach (fun (m : str * tstr) _ =>
                 let '(x, body) := m in
                 match lookup c x with
                 | Some (VList items) =>
-                    let '(r, lg) := loop_items_t body (length items) O items in (inl r, lg)
+                    let '(r, lg) := loop_items_t legacy body (length items) O items in (inl r, lg)
                 | _ => (inl [], [])
                 end)
        (scan (m_each tcode) O s).
@@ -110,27 +115,37 @@ Inductive toutcome := OkT (text : tstr) (warnings : list warning) | ErrT (e : er
 Definition through_include (t : tstr) : tstr :=
   map (fun a => (fst a, if is_template (snd a) then FromTemplate else FromInclude)) t.
 
-Definition pass_include_t (render : str -> option (toutcome * list failure)) (s : tstr)
-  : (tstr + error) * list failure :=
-  tsub PInclude (fun (n : str) _ =>
-                   match render n with
-                   | Some (OkT t _, lg) => (inl (through_include t), lg)
-                   | Some (ErrT e, lg) => (inr e, lg)
-                   | None => (inl (taint FromTemplate (S_UNKNOWN ++ n ++ [93])), [])
-                   end)
-       (scan (m_include tcode) O s).
+Definition resolve_includes_t {R} (render : str -> R) (s : tstr) : list (ttok (str * R)) :=
+  map (fun t => match t with
+                | TLit a => TLit a
+                | TMatch n c => TMatch (n, render n) c
+                end)
+      (scan (m_include tcode) O s).
 
-Definition pass_filtered_t (c : ctx) (s : tstr) : (tstr + error) * list failure :=
+Definition include_text_t (legacy : bool) (rs : list (ttok (str * option (toutcome * list failure))))
+  : (tstr + error) * list failure :=
+  tsub PInclude (fun (m : str * option (toutcome * list failure)) _ =>
+                   match snd m with
+                   | Some (OkT t _, lg) => (inl (tsh legacy (through_include t)), lg)
+                   | Some (ErrT e, lg) => (inr e, lg)
+                   | None => (inl (taint FromTemplate (S_UNKNOWN ++ fst m ++ [93])), [])
+                   end) rs.
+Definition include_warnings_t (legacy : bool) (rs : list (ttok (str * option (toutcome * list failure))))
+  : list warning :=
+  if legacy then []
+  else flat_map (fun mc => match snd (fst mc) with Some (OkT _ w, _) => w | _ => [] end) (matches rs).
+
+Definition pass_filtered_t (legacy : bool) (c : ctx) (s : tstr) : (tstr + error) * list failure :=
   tsub PFiltered (fun (m : str * str) g0 =>
                     let '(x, f) := m in
                     match lookup c x with
                     | Some v =>
                         if is_filter f then
                           match apply_filter f v with
-                          | inl r => (inl (taint FromFiltered r), [])
+                          | inl r => (inl (taint FromFiltered (sh legacy r)), [])
                           | inr e => (inr e, [])
                           end
-                        else (inl (taint FromFiltered (str_value v)), [])
+                        else (inl (taint FromFiltered (sh legacy (str_value v))), [])
                     | None => (inl g0, [])
                     end)
        (scan (m_filtered tcode) O s).
@@ -143,35 +158,35 @@ Definition replace_default_t (s : tstr) (old : str) (new : tstr) : tstr * list f
   let ts := scan (m_lit tcode old) O s in
   (subst (fun _ _ => new) ts, toks_log PDefault ts).
 
-Definition pass_default_t (c : ctx) (s : tstr) : tstr * list failure :=
+Definition pass_default_t (legacy : bool) (c : ctx) (s : tstr) : tstr * list failure :=
   let ts := scan (m_default tcode) O s in
-  fold_left (fun (acc : tstr * list failure) (mc : (str * tstr) * tstr) =>
+  fold_left (fun (acc : tstr * list failure) (mc : (str * str) * tstr) =>
                let '(res, lg) := acc in
                let '((x, d), g0) := mc in
-               if is_filter (erase d) then (res, lg)
+               if is_filter d then (res, lg)
                else
                  let new := match lookup c x with
-                            | Some v => taint FromDefault (str_value v)
-                            | None => taint FromDefault (erase d)
+                            | Some v => taint FromDefault (sh legacy (str_value v))
+                            | None => taint FromDefault (sh legacy d)
                             end in
                  let '(res', lg') := replace_default_t res (erase g0) new in
                  (res', lg ++ lg'))
             (matches ts) (s, toks_log PDefault ts).
 
-Definition pass_optional_t (c : ctx) (s : tstr) : (tstr + error) * list failure :=
+Definition pass_optional_t (legacy : bool) (c : ctx) (s : tstr) : (tstr + error) * list failure :=
   tsub POptional (pure (fun (x : str) _ =>
                           match lookup c x with
-                          | Some v => taint FromOptional (str_value v)
+                          | Some v => taint FromOptional (sh legacy (str_value v))
                           | None => []
                           end))
        (scan (m_optional tcode) O s).
 
-Definition pass_simple_t (c : ctx) (s : tstr) : (tstr + error) * list failure :=
-  tsub PSimple (pure (fun (x : str) g0 =>
-                        match lookup c x with
-                        | Some v => taint FromPlain (str_value v)
-                        | None => g0
-                        end))
+Definition pass_simple_t (legacy raise : bool) (c : ctx) (s : tstr) : (tstr + error) * list failure :=
+  tsub PSimple (fun (x : str) g0 =>
+                  match lookup c x with
+                  | Some v => (inl (taint FromPlain (sh legacy (str_value v))), [])
+                  | None => if raise then (inr (EMissing x), []) else (inl g0, [])
+                  end)
        (scan (m_simple tcode) O s).
 Definition warn_simple_t (c : ctx) (s : tstr) : list warning :=
   flat_map (fun mc => if bound c (fst mc) then [] else [WUnbound (fst mc)])
@@ -179,34 +194,42 @@ Definition warn_simple_t (c : ctx) (s : tstr) : list warning :=
 
 Definition text_of (r : tstr + error) : tstr := match r with inl t => t | inr _ => [] end.
 
-Fixpoint translate_t (fuel : nat) (strict : bool) (T : list (str * str)) (c : ctx) (s : str)
+Fixpoint translate_t (legacy : bool) (fuel : nat) (strict : bool) (T : list (str * str)) (c : ctx) (s : str)
   : toutcome * list failure :=
   match fuel with
   | O => (ErrT EFuel, [])
   | S fuel' =>
-      let miss := missing_vars c s in
+      let miss := missing_vars legacy c s in
       match (if strict then miss else []) with
       | x :: _ => (ErrT (EMissing x), [])
       | [] =>
           let '(r1, l1) := pass_if_t c (taint FromTemplate s) in
-          let '(r2, l2) := pass_each_t c (text_of r1) in
-          let '(r3, l3) := pass_include_t (fun n => match lookup T n with
-                                                    | Some sq => Some (translate_t fuel' strict T c sq)
-                                                    | None => None
-                                                    end) (text_of r2) in
+          let '(r2, l2) := pass_each_t legacy c (text_of r1) in
+          let rs := resolve_includes_t
+                      (fun n => match lookup T n with
+                                | Some sq => Some (translate_t legacy fuel' strict T c sq)
+                                | None => None
+                                end) (text_of r2) in
+          let '(r3, l3) := include_text_t legacy rs in
           match r3 with
           | inr e => (ErrT e, l1 ++ l2 ++ l3)
           | inl s3 =>
-              let '(r4, l4) := pass_filtered_t c s3 in
+              let '(r4, l4) := pass_filtered_t legacy c s3 in
               match r4 with
               | inr e => (ErrT e, l1 ++ l2 ++ l3 ++ l4)
               | inl s4 =>
-                  let '(s5, l5) := pass_default_t c s4 in
-                  let '(r6, l6) := pass_optional_t c s5 in
+                  let '(s5, l5) := pass_default_t legacy c s4 in
+                  let '(r6, l6) := pass_optional_t legacy c s5 in
                   let s6 := text_of r6 in
-                  let '(r7, l7) := pass_simple_t c s6 in
-                  (OkT (text_of r7) (map WMissing miss ++ warn_filtered_t c s3 ++ warn_simple_t c s6),
-                   l1 ++ l2 ++ l3 ++ l4 ++ l5 ++ l6 ++ l7)
+                  let '(r7, l7) := pass_simple_t legacy (strict && negb legacy) c s6 in
+                  let lg := l1 ++ l2 ++ l3 ++ l4 ++ l5 ++ l6 ++ l7 in
+                  match r7 with
+                  | inr e => (ErrT e, lg)
+                  | inl s7 =>
+                      (OkT (tunsh legacy s7)
+                           (map WMissing miss ++ include_warnings_t legacy rs ++
+                            warn_filtered_t c s3 ++ warn_simple_t c s6), lg)
+                  end
               end
           end
       end
@@ -214,7 +237,10 @@ Fixpoint translate_t (fuel : nat) (strict : bool) (T : list (str * str)) (c : ct
 
 Definition render_taint (strict : bool) (T : list (str * str)) (c : ctx) (s : str)
   : toutcome * list failure :=
-  translate_t (S (length T)) strict T c s.
+  translate_t false (S (length T)) strict T c s.
+Definition render_taint_legacy (strict : bool) (T : list (str * str)) (c : ctx) (s : str)
+  : toutcome * list failure :=
+  translate_t true (S (length T)) strict T c s.
 
 (* ------------------------------------------------------------------ *)
 (* observations                                                         *)
@@ -248,25 +274,28 @@ Definition obs_taint (o : toutcome) : list (list Z) :=
   | ErrT e => [err_row (Some e); []; []]
   end.
 
-(* raw strings of the context are brace-free (the harness's notion of a delimiter-free context;
-   weaker than Spec.delimiter_free, which also rules out the braces of a dict's repr) *)
-Definition item_raw_free (it : item) : bool :=
+(* raw strings of the context are sentinel-free (the harness's notion; for the generated
+   contexts - identifier keys, ASCII - it coincides with Spec.ctx_ok) *)
+Definition item_raw_ok (it : item) : bool :=
   match it with
-  | IStr s => nobrace s
-  | IDict kvs => forallb (fun kv => nobrace (fst kv) && nobrace (snd kv)) kvs
+  | IStr s => nosent s
+  | IDict kvs => forallb (fun kv => nosent (fst kv) && nosent (snd kv)) kvs
   end.
-Definition value_raw_free (v : value) : bool :=
-  match v with VStr s => nobrace s | VList l => forallb item_raw_free l | _ => true end.
-Definition ctx_raw_free (c : ctx) : bool := forallb (fun kv => value_raw_free (snd kv)) c.
+Definition value_raw_ok (v : value) : bool :=
+  match v with VStr s => nosent s | VList l => forallb item_raw_ok l | _ => true end.
+Definition ctx_raw_ok (c : ctx) : bool := forallb (fun kv => value_raw_ok (snd kv)) c.
 
 Definition case := (list (str * template) * template * ctx * bool)%type.
 
+(* the reference rendering (both modes, delimiter-free or not) whenever the templates are of the
+   grammar and the context is sentinel-free *)
 Definition spec_row (c : case) : list Z :=
   let '(T, main, cx, strict) := c in
-  if well_formed main && forallb (fun nt => well_formed (snd nt)) T && ctx_raw_free cx && negb strict then
-    match render_spec false T cx main with
+  if well_formed main && forallb (fun nt => well_formed (snd nt)) T && ctx_raw_ok cx then
+    match render_spec strict T cx main with
     | SOk t _ => 1 :: t
     | SErr EType => [2]
+    | SErr (EMissing x) => 4 :: x
     | SErr _ => [3]
     end
   else [0].
